@@ -17,9 +17,10 @@ LEVEL = "exploration"
 BUDGET = {"quick": 3200, "thorough": 32000}
 WALL_CAP = {"quick": 600, "thorough": 5400}
 TOOLS = ["reader-select", "reader-iterate", "taste", "colander", "combine", "chef", "mandoline",
-         "pestle", "whip", "chk2plt"]
+         "pestle", "whip", "chk2plt", "chef-history"]
 RULE = ("case = pooled entry point in {reader selections, level iteration, taste, colander, combine, chef, mandoline "
-        "2D/3D (return/array/plotfile), pestle, whip, chk2plt} on a generated input; the reference execution is the "
+        "2D/3D (return/array/plotfile), pestle, whip, chk2plt, and a Cantera cook preceded in the same process by "
+        "other parallel cooks under FORK pools with the modelled pathos cache} on a generated input; the reference execution is the "
         "serial mode where one exists (chef, mandoline) and the FIFO one-worker schedule otherwise; variants: for each "
         "pool call of the run in turn and each W in {1,2,n,16}, if the call has <= 4 dispatch units ALL feasible "
         "completion orders (deduplicated) x {lazy, eager} delivery for imap calls while the other calls stay FIFO "
@@ -187,7 +188,57 @@ class PestleT(tools.ToolCase):
                         cwd=self.cwd(root), label=f"pestle {self.var}")
 
 
+def make_chef_history():
+    """A Cantera cook preceded, in the same process, by other parallel cooks (a Cantera one at another
+    pressure, then a plain user recipe): run with FORK pools, where worker memory is real and pathos'
+    cached workers survive between cooks.  The serial cook of the same request is the reference."""
+    from . import c11
+
+    class ChefHistoryT(c11.ChefBuiltinT):
+        name = "chef-history"
+
+        def draw(self, ctx, src):
+            super().draw(ctx, src)
+            self.opts.update(in_form="abs", out="abs", cli=False)
+            self.serial = False
+            self.n_earlier = src.draw("history.n", 1, 2)
+            self.hseeds = [src.draw(f"history.seed{e}", 0, 999) for e in range(2)]
+            self.opts.update(history=self.n_earlier)
+
+        def call(self, ctx, root):
+            from ..choice import RandomSource
+            old_fork = ctx.fork_mode
+            ctx.fork_mode = True
+            try:
+                if not self.serial:
+                    for e in range(self.n_earlier):
+                        r0 = os.path.join(root, f"earlier{e}")
+                        if e == 0:
+                            b0 = c11.ChefBuiltinT()
+                            b0.m, b0.it, b0.iy, b0.nsp = c11.cantera_world(RandomSource(self.hseeds[e]))
+                            b0.recipe, b0.species, b0.reactions, b0.pressure, b0.kept, b0.serial = "HRR", None, None, 0.5, [], False
+                            b0.opts.update(in_form="abs", cwd="work", out="abs", cli=False)
+                            first = b0
+                        else:
+                            first = tools.ChefUserT()
+                            first.m = world.gen_world(RandomSource(self.hseeds[e]), force_3d=True, special_ok=False, max_levels=2)
+                            first.kind, first.i, first.j, first.newnames, first.kept = "lin", 0, 0, ["new_a"], []
+                            first.serial = False
+                            first.opts.update(in_form="abs", cwd="work", out="abs", cli=False)
+                        first.prepare_root(r0)
+                        first.call(ctx, r0)
+                        shutil.rmtree(r0, ignore_errors=True)
+                        ctx.reset_pools(keep_pathos_cache=True)
+                        ctx.pool_seq = 0
+                return super().call(ctx, root)
+            finally:
+                ctx.fork_mode = old_fork
+    return ChefHistoryT()
+
+
 def make(name):
+    if name == "chef-history":
+        return make_chef_history()
     if name == "reader-select":
         return ReaderT(False)
     if name == "reader-iterate":
@@ -305,7 +356,7 @@ def run_case(ctx):
         if tool.opts.get("out") == "default":
             tool.opts["out"] = "abs"
     sig = {"property": ID, "tool": name}
-    has_serial = name in ("chef", "mandoline") and not tool.opts.get("cli")
+    has_serial = name in ("chef", "mandoline", "chef-history") and not tool.opts.get("cli")
     # reference: serial mode where it exists, else FIFO with one worker
     ref = execute(ctx, tool, 0, Scripted({}), serial=True if has_serial else None)
     pilot = ref
@@ -314,6 +365,8 @@ def run_case(ctx):
         compare(ctx, sig, tool, ref, pilot, "parallel FIFO schedule vs serial mode")
     variants = variants_for(pilot.calls, ctx)
     cap = 40 if ctx.tier == "quick" else 400
+    if name == "chef-history":
+        cap = 4 if ctx.tier == "quick" else 24       # three Cantera cooks with real forks per variant
     if len(variants) > cap:
         import random
         rnd = random.Random(src.draw("variants.subset", 0, 9999))
@@ -328,6 +381,8 @@ def run_case(ctx):
         ctx.stats["enumerated_variants"] += 1
         compare(ctx, sig, tool, ref, r, desc)
     nrand = src.draw("nrandom", 1, 3 if ctx.tier == "quick" else 6)
+    if name == "chef-history":
+        nrand = 1
     for j in range(nrand):
         seed = src.draw(f"rand{j}.seed", 1, 99999)
         ps = RandomSource(seed, forced=None)
